@@ -21,7 +21,46 @@ import (
 // Equiv values; B may be rejected where C is accepted only for a constant integer / or % by zero; A may be
 // rejected where B is accepted only if a marked call with constant arguments fails when executed.
 
-func init() { core.RegisterJudge("C02", "diff", judgeC02) }
+func init() {
+	core.RegisterJudge("C02", "diff", judgeC02)
+	core.RegisterJudge("C02", "closure", judgeC02Closure)
+}
+
+// closure: the ConstExpr function is a closure held by a map environment; every case binds the same name to a
+// different closure instance of the same function literal (same code, different captured values). Marking it
+// ConstExpr must give what the unmarked, unoptimised program gives with THIS environment.
+func judgeC02Closure(c *core.Case, cfg *core.Config) core.Verdict {
+	k, off := c.Int("k"), c.Int("off")
+	v := core.Verdict{Key: c.Source + fmt.Sprint(k, off)}
+	mk := func() map[string]interface{} {
+		return map[string]interface{}{
+			"Tax":   func(x int) int { return x*k + off },
+			"Scale": func(f float64) float64 { return f * float64(k) },
+			"Tag":   func(s string) string { return fmt.Sprint(s, "#", k) },
+			"I":     c.Int("i"),
+		}
+	}
+	env := mk()
+	pm, errm := compile(c.Source, expr.Env(env), expr.ConstExpr("Tax"), expr.ConstExpr("Scale"), expr.ConstExpr("Tag"), expr.Optimize(true))
+	pu, erru := compile(c.Source, expr.Env(env), expr.Optimize(false))
+	if erru != nil {
+		v.Skip = "rejected-by-plain-compiler"
+		return v
+	}
+	if errm != nil {
+		v.Violation = "with the functions marked ConstExpr Compile fails: " + firstLine(errm.Error())
+		return v
+	}
+	om, rerrm := run(pm, mk())
+	ou, rerru := run(pu, mk())
+	if (rerrm == nil) != (rerru == nil) || rerrm == nil && !core.Equiv(om, ou) {
+		v.Violation = fmt.Sprintf("environment closures with k=%d: marked ConstExpr and optimised -> %s, unmarked and unoptimised -> %s", k, runOut{om, rerrm, nil}, runOut{ou, rerru, nil})
+		return v
+	}
+	v.Classes = append(v.Classes, "closure-constexpr")
+	v.NonTriv = !sameProgram(pm, pu)
+	return v
+}
 
 func isBudgetErr(err error) bool {
 	return err != nil && strings.Contains(err.Error(), "memory budget exceeded")
@@ -303,5 +342,17 @@ func TestC02(t *testing.T) {
 	rec.Extra["rule"] = "rapid-generated well-typed expressions biased to the five rewrites (constant int/string arithmetic at any depth incl. call arguments and overflow, literal arrays, `x in [consts]` / `x in a..b` / not in with x of every admitted static type, constant ranges of size 0/1/descending/~1e3/straddling 1e6, calls of pure functions with constant/foldable/variable arguments under drawn ConstExpr marks) plus a 10% control group of unbiased programs; each compiled as A=Optimize(true)+marks, B=Optimize(true), C=Optimize(false), typed and untyped, and run on a generated environment value. Non-trivial: a rewrite actually fired (B's bytecode/constants differ from C's, or A's from B's) or the optimiser's rejection was judged; distinct by source+environment+mode+marks."
 	rec.Extra["assumptions"] = []string{"Equiv compares numbers by kind and value and sequences element by element", "a memory-budget failure on one side only makes the pair incomparable (the optimiser preallocates constant ranges by design); counted as incomparable-budget", "pure harness functions (Sq, Div, Rep, Neg, IsPos, Pick, Join, Half, Len2, Sum) depend on their arguments only"}
 	rec.Extra["floor"] = 0.1
-	core.RunRapid(t, rec, "random", cfg.N(40000, 700000), func(rt *rapid.T) *core.Case { return genC02(rt, cfg) })
+	if !core.RunRapid(t, rec, "random", cfg.N(40000, 700000), func(rt *rapid.T) *core.Case { return genC02(rt, cfg) }) {
+		return
+	}
+	core.RunRapid(t, rec, "closure", cfg.N(3000, 60000), func(rt *rapid.T) *core.Case {
+		c := pcase("C02", "closure")
+		c.P["k"], c.P["off"], c.P["i"] = rapid.IntRange(1, 9).Draw(rt, "k"), rapid.IntRange(0, 3).Draw(rt, "off"), rapid.IntRange(-3, 9).Draw(rt, "i")
+		a, b := rapid.IntRange(0, 5).Draw(rt, "a"), rapid.IntRange(0, 5).Draw(rt, "b")
+		c.Source = rapid.SampledFrom([]string{
+			fmt.Sprintf("Tax(%d) + I", a), fmt.Sprintf("Tax(%d + %d) * 2", a, b), fmt.Sprintf("[Tax(%d), Tax(%d), I]", a, b), fmt.Sprintf("Tax(Tax(%d))", a),
+			fmt.Sprintf("Scale(%d.5) > 3.0", a), fmt.Sprintf("Tag(\"t%d\") + \"!\"", a), fmt.Sprintf("Tax(%d) in [1, 2, 3, %d]", a, b), fmt.Sprintf("I > 0 ? Tax(%d) : Tax(%d)", a, b),
+		}).Draw(rt, "shape")
+		return c
+	})
 }
